@@ -4,6 +4,7 @@
 -/
 import Snmp.Lemmas.UsmLemmas
 import Snmp.Lemmas.RawDigestLemmas
+import Snmp.Lemmas.V3GlueLemmas
 namespace Snmp.Props.C10
 open Snmp Snmp.Usm Snmp.Ber
 
@@ -216,5 +217,46 @@ example : RawDigest.Shape.ok
       ⟨.minimal, .minimal, .minimal, .minimal, .minimal, .minimal, .minimal, .minimal, .minimal, .minimal, 48, 2, 48, 4, 48, 4, 2, 2, 4, 4⟩
       ⟨[3], [], [], [0], [0], [], [4, 0], [48, 0], []⟩ (List.replicate 12 7) := by
   simp [RawDigest.Shape.ok, LenForm.ok, RawDigest.body, RawDigest.sec, RawDigest.inner, Spec.tlv, specLength]
+
+/-- **From the octets to the fields.**  `Message.decode` + `USMSecurityParameters.decode` (modelled
+    over the x690 mirror with its laziness: `V3Glue.v3OfBytes`) on EVERY well-formed SNMPv3 message
+    — any admissible definite length form at each of the 21 TLVs of the wrapper, any contents,
+    anything behind the message — yield msgID, msgMaxSize, msgFlags, msgSecurityModel and the six USM
+    parameters exactly as written; msgData is what `payloadOf` makes of it (next two theorems). -/
+theorem C10_fields_from_wire (G : V3Glue.MsgForms) (F : V3Glue.ParamForms) (h : V3Glue.HdrC) (p : UsmParams.Params)
+    (boots time : Bytes) (pl : RawTlv) (trailing : Bytes) (fuel : Nat) (dt : Nat) (dc : Bytes)
+    (hok : G.ok F h p boots time pl) (hF : F.ok p boots time)
+    (hb : p.boots = intDecode true boots) (ht : p.time = intDecode true time)
+    (hpay : V3Glue.payloadOf (V3Glue.v3wire G F h p boots time pl trailing) (fromBE h.flg)
+      (V3Glue.plNode G F h p boots time pl) fuel = .ok (dt, dc))
+    (hfuel : 5 ≤ fuel) :
+    V3Glue.v3OfBytes (V3Glue.v3wire G F h p boots time pl trailing) fuel =
+      .ok ⟨intDecode true h.mid, intDecode true h.mms, fromBE h.flg, intDecode true h.mdl,
+           p.engineId, p.boots, p.time, p.user, p.auth, p.priv, dt, dc⟩ :=
+  V3Glue.v3OfBytes_wire G F h p boots time pl trailing fuel dt dc hok hF hb ht hpay hfuel
+
+/-- msgData with the priv flag set is kept as it is (identifier octet 4 for an OCTET STRING) … -/
+theorem C10_payload_encrypted (G : V3Glue.MsgForms) (F : V3Glue.ParamForms) (h : V3Glue.HdrC) (p : UsmParams.Params)
+    (boots time : Bytes) (fpl : LenForm) (cipher trailing : Bytes) (fuel flags : Nat) (hpriv : flags / 2 % 2 = 1) :
+    V3Glue.payloadOf (V3Glue.v3wire G F h p boots time (V3Glue.tStr fpl cipher) trailing) flags
+      (V3Glue.plNode G F h p boots time (V3Glue.tStr fpl cipher)) fuel = .ok (4, cipher) := by
+  have := V3Glue.payload_priv G F h p boots time (V3Glue.tStr fpl cipher) trailing fuel flags hpriv
+  rw [this]
+  have h4 : UsmParams.isInstance (lookup (V3Glue.tStr fpl cipher).t).name "OctetString" = true := by
+    show UsmParams.isInstance (lookup 4).name "OctetString" = true
+    rw [V3Glue.look.2.1]; decide
+  simp only [V3Glue.tStr]
+  congr 2
+  exact ite_self 4
+
+/-- … and a plain scoped PDU — context engine id, context name and a PDU, each in any form — reaches
+    the strict reader as these three with minimal length octets. -/
+theorem C10_payload_plain (G : V3Glue.MsgForms) (F : V3Glue.ParamForms) (h : V3Glue.HdrC) (p : UsmParams.Params)
+    (boots time : Bytes) (fpl : LenForm) (ce cn pdu : RawTlv) (trailing : Bytes) (fuel flags : Nat)
+    (hplain : flags / 2 % 2 = 0) (hoks : ∀ y ∈ [ce, cn, pdu], y.ok) (hfuel : 2 ≤ fuel) :
+    V3Glue.payloadOf (V3Glue.v3wire G F h p boots time (V3Glue.tSeq fpl (rawBytes [ce, cn, pdu])) trailing) flags
+        (V3Glue.plNode G F h p boots time (V3Glue.tSeq fpl (rawBytes [ce, cn, pdu]))) fuel
+      = .ok (48, Ber.tlv 4 ce.c ++ Ber.tlv 4 cn.c ++ Ber.tlv pdu.t pdu.c) :=
+  V3Glue.payload_plain G F h p boots time fpl ce cn pdu trailing fuel flags hplain hoks hfuel
 
 end Snmp.Props.C10
